@@ -680,6 +680,11 @@ def _execute(scn, keep_objects=False, prev_ctx=None):
             ctx.load_calls.append({'seq': next_seq(), 'epoch': ctx.epoch,
                                    'k': len(pt.time) - 1, 't': t, 'th': th,
                                    'w': w, 'v': v})
+            if spec.get('unit2') and t >= spec.get('t_unit2', 0.0):
+                # a user function may return its torque in any unit, and
+                # not always the same one
+                return U.Torque(v / si.factor('Torque', spec['unit2']),
+                                spec['unit2'])
             return U.Torque(v / fac, unit)
         ctx.objs[li].external_torque = external_torque
         H['load_on'] = li
@@ -831,6 +836,17 @@ def _execute(scn, keep_objects=False, prev_ctx=None):
                 res['elements_type'] = type(pt.elements).__name__
                 res['self_locking'] = pt.self_locking
                 rec['probe'] = res
+            elif kind == 'convert_live':
+                # the user converts a live quantity IN PLACE to another unit
+                # between two operations (legal; physics must not change)
+                try:
+                    if op['attr'] == 'time':
+                        pt.time[-1].to(op['unit'], inplace=True)
+                    else:
+                        getattr(ctx.objs[op['elem']], op['attr']).to(
+                            op['unit'], inplace=True)
+                except Exception as ex:      # noqa
+                    rec['exc'] = _exc(ex)
             elif kind == 'motor_probe':
                 # direct use of the motor's own API on user-set state; the
                 # live driving torque may be re-expressed in another unit
